@@ -32,7 +32,8 @@ def gen_replies(rng, doc):
             acts.append({"action": "REPLY", "target_id": "Com:" + rng.choice(ids), "text": "reply " + str(rng.randint(0, 999))})
         else:
             nums = [int(i) for i in ids if i.isdigit()]
-            gaps = [str(k) for k in range(0, max(nums, default=0) + 2) if str(k) not in ids]
+            # (ids below the maximum only: a reply of this very batch takes max + 1)
+            gaps = [str(k) for k in range(0, max(nums, default=0)) if str(k) not in ids]
             acts.append({"action": "REPLY", "target_id": rng.choice(["Com:9999", "Com:", "Chg:1", "9998"] + ["Com:" + g for g in gaps[:3]]),
                          "text": "lost?"})
     return acts
@@ -177,6 +178,25 @@ def compare(res, out):
     return [(name, d)] if d else []
 
 
+def _ins_has_break(doc, rid):
+    for _, p in engine_oracles._story_nodes(doc):
+        for n in p["nodes"]:
+            if n["k"] == "ins" and n.get("id") == rid:
+                for c in n["ch"]:
+                    if c["k"] == "r" and any(a["k"] in ("br", "cr") or "\n" in a.get("s", "") for a in c["run"]["ch"]):
+                        return True
+    return False
+
+
+def classify(res):
+    """Domain of the open finding F-comment-lost-in-multiline-insertion: a commented edit addresses text inside another
+    reviewer's pending insertion that contains a line break (the insertion is re-inserted as several lines)."""
+    for e in res["case"]["edits"]:
+        if e.get("state") == "ins" and e.get("comment") and _ins_has_break(res["case"]["doc"], e.get("rid")):
+            return "F-comment-lost-in-multiline-insertion"
+    return None
+
+
 def nontrivial(res):
     return any(e.get("comment") for e in res["case"]["edits"]) or bool(res["case"]["replies"])
 
@@ -185,7 +205,7 @@ def run(tier, seed, driver_ok):
     return doccheck.run_doc_check(
         "C10", tier, seed, driver_ok, n_quick=360, n_thorough=6000,
         profiles=[("default", PROFILES["default"], 2), ("threads", PROFILES["threads"], 1)],
-        work=work, oracle=oracle, driver_line=driver_line, compare=compare, nontrivial=nontrivial,
+        work=work, oracle=oracle, driver_line=driver_line, compare=compare, nontrivial=nontrivial, classify=classify,
         rule="seeded generated documents (comment ranges, reply threads: modern and legacy) x batches of 1-3 exact unique "
              "edits of every operation kind (replacement, deletion, insertion, multi-line, heading line; 75% with a "
              "comment) and x sequences of 1-3 REPLY actions (existing and non-existing comments); non-trivial = "
